@@ -162,6 +162,10 @@ _mutation = st.one_of(
     st.builds(lambda f, d: {"op": "insert", "at": f, "data": d}, st.floats(0, 1), st.binary(min_size=1, max_size=9)),
     st.builds(lambda f, n: {"op": "delete", "at": f, "n": n}, st.floats(0, 1, exclude_max=True), st.integers(1, 9)),
     st.builds(lambda d: {"op": "append", "data": d}, st.binary(min_size=1, max_size=24)),
+    st.builds(lambda f, b: {"op": "flip", "at": 0.62 + 0.38 * f, "xor": b}, st.floats(0, 1, exclude_max=True),
+              st.integers(1, 255)),  # inside the record-batch message / body: often still a valid stream
+    st.sampled_from([{"op": "restructure", "how": "nobatch"}, {"op": "restructure", "how": "twobatch"},
+                     {"op": "restructure", "how": "threebatch"}]),
     st.builds(lambda f, v: {"op": "set32", "at": f, "v": v}, st.floats(0, 1, exclude_max=True),
               st.sampled_from([0, 1, 8, 2**31 - 1, 0xFFFFFFFF, 0x7FFFFFF8])),
 )
@@ -295,7 +299,7 @@ def _columns(req: dict[str, Any], rows: int) -> tuple[pa.Schema, list[pa.Array]]
     fields, arrays = [], []
     for name, ty, seed, nullable in spec["cols"]:
         vals = [_value(ty, seed + r) for r in range(rows)]
-        if not nullable and any(v is None for v in vals):
+        if ty == "null" or (not nullable and any(v is None for v in vals)):
             nullable = True
         arrays.append(_array(ty, vals))
         fields.append(pa.field(name, _TYPES[ty][0], nullable=nullable))
@@ -360,7 +364,23 @@ def _classify(data: bytes) -> str:
     return "valid1"
 
 
+def _restructure(data: bytes, how: str) -> bytes:
+    """Same schema / batch / metadata, but 0, 2 or 3 batches in the stream (still a valid IPC stream)."""
+    reader = ipc.open_stream(data)
+    batch, md = reader.read_next_batch_with_custom_metadata()
+    buf = io.BytesIO()
+    with ipc.new_stream(buf, reader.schema) as w:
+        for _ in range({"nobatch": 0, "twobatch": 2, "threebatch": 3}[how]):
+            w.write_batch(batch, custom_metadata=md)
+    return buf.getvalue()
+
+
 def _mutate(data: bytes, muts: list[dict[str, Any]]) -> bytes:
+    if muts and muts[0]["op"] == "restructure":
+        data = _restructure(data, muts[0]["how"])
+        muts = [m for m in muts[1:] if m["op"] != "restructure"]
+    else:
+        muts = [m for m in muts if m["op"] != "restructure"]
     b = bytearray(data)
     for mu in muts:
         n = len(b)
@@ -495,7 +515,8 @@ def _judge_wellframed(live: _Live, data: bytes, header_stream: bool, nonce: int,
     if how.startswith("raised"):
         key = "serve_loop_raised/" + _server_site(how, live.conn.server_exit.get("tb", ""))
     elif any(e[0] == "exception" for e in obs) and any(e[0] == "eos" for e in obs):
-        key = "connection_ended_after_error_reply"
+        first = next(e[1] for e in obs if e[0] == "exception")
+        key = "connection_ended_after_error_reply/" + first.split(":", 1)[0].strip()[:40]
     else:
         key = "no_reply_or_desync"
     out.fail(key, f"{what_req}: {problem}; serve loop {how}")
@@ -544,8 +565,13 @@ def run_bytes(case: dict[str, Any]) -> Outcome:
         out.label(f"t={case['t']}", f"class={cls}", f"muts={ops}")
         out.nontrivial = data != base
         out.note = {"len": len(data), "base_len": len(base), "class": cls}
-        if cls in ("valid1", "unchanged"):
-            _judge_wellframed(live, data, False, case["nonce"], out, f"mutated-but-valid request ({ops}) on {case['t']}")
+        if cls in ("valid1", "unchanged", "batches=0", "batches=2", "batches=3"):
+            # still a complete, fully valid IPC stream: it may not end the connection
+            before = len(out.violations)
+            _judge_wellframed(live, data, False, case["nonce"], out, f"mutated-but-valid request ({ops}; {cls}) on {case['t']}")
+            if cls.startswith("batches=") and len(out.violations) > before:
+                k, w = out.violations.pop()
+                out.fail(f"valid_stream_{cls}/{k}", w)
             return out
         # Not a valid single-batch stream.  The peer sends the bytes and waits; if both sides end up waiting (the
         # bytes promised more), the peer half-closes — Conn.call does exactly that when it proves a mutual wait.
